@@ -348,6 +348,18 @@ MUTANTS += [
 ]
 
 MUTANTS += [
+    ('fixrev_append_over_multiplicity', ['C06'], 'maltoolbox/model.py',
+     """            field_assets.validate_length()
+""", """            pass
+""", 'revert 2d11579'),
+    ('fixrev_attacker_id_not_integer', ['C05'], 'maltoolbox/model.py',
+     """        if attacker_id is not None and (
+                not isinstance(attacker_id, int)
+                or isinstance(attacker_id, bool)):""",
+     """        if False:""", 'revert 054e279'),
+]
+
+MUTANTS += [
     ('fixrev_refused_add_attacker_id', ['C09'], AG,
      """        if new_id in self._id_to_attacker:
             raise ValueError(f'Attacker index {attacker_id} already in use.')
